@@ -47,7 +47,7 @@ func keep(cat string, v any) {
 }
 
 func flushSamples(r *ev.Run) {
-	cats := []string{"token-leader", "token-path-leader", "tls-binary", "tls-inproc", "tls-resumption", "tls-resumption-binary", "control", "token-follower", "token-path-follower", "unprotected"}
+	cats := []string{"token-leader", "token-path-leader", "tls-binary", "tls-ca-file-binary-leader", "tls-resumption", "tls-inproc", "tls-resumption-binary", "tls-ca-file-inproc", "control", "token-follower", "token-path-follower", "unprotected"}
 	for round := 0; round < 2; round++ {
 		for _, c := range cats {
 			if len(sampleBy[c]) > round {
@@ -352,7 +352,9 @@ func run(r *ev.Run) int {
 		"x credential variants derived from the configured token (none, empty, prefix, tail, extension, case, other scheme, spacing, other header, other service's token), in seed-shuffled order, " +
 		"each followed by a dump of table list + contents through the API; every method is also sent under other spellings of the HTTP/2 :path (no leading slash, double slash, case, trailing slash, ...) through conn.Invoke/NewStream, " +
 		"and whatever spelling the server routes (measured per instance with unprotected calls) is judged like the canonical name. " +
-		"Certificate probes = credentials minted from construction parameters (issuer, validity, key ownership, CN, SANs, unrelated extra certificates sent along with the leaf). " +
+		"Certificate probes = credentials minted from construction parameters (issuer - incl. a CA that is only in the server's host trust store -, validity, key ownership, CN, SANs, unrelated extra certificates sent along with the leaf). " +
+		"CA-file scenarios = the configured CA file of a running endpoint (in-process and binary) is removed / half-written / replaced by a directory / emptied / rotated / restored while clients connect. " +
+		"Configured tokens include values with commas in leading / trailing / doubled / blank-separated positions (still one token), probed additionally with every separated part of the token. " +
 		"Session scenarios = endpoints serving the same server key pair but differing in client CA / allowed CN / allowed hostname (in-process ServerConfig() instances; the binary leader's API vs replication endpoint): " +
 		"a client right for A with a TLS session cache completes a round trip at A and then connects to B (TLS 1.2 and 1.3); B must judge it by its own rule. " +
 		"Non-trivial = a near-miss credential (differs from the right one in one construction parameter); distinct by flavour+method+metadata resp. option set+variant+names+client TLS version")
@@ -364,6 +366,9 @@ func run(r *ev.Run) int {
 		"option sets without a trusted CA are outside the statement: their outcomes are recorded, not judged",
 		"a :path spelling counts as routed by the server iff an unprotected unary call (Cluster/Status) or server stream (KV/IterateRange) spelled that way is answered OK; an unrouted spelling must not answer OK and must leave the state unchanged",
 		"where a client obtained a TLS session is irrelevant to the endpoint it presents it to: the oracle for the second endpoint is the same predicate over the certificate's construction parameters",
+		"the server's host trust store (SSL_CERT_FILE / SSL_CERT_DIR of the child processes and of this process) holds exactly one CA of the driver's own that is never configured as a client CA",
+		"CA-file states: the refusal side is judged while the file content is the configured one or the file cannot be read/parsed; an emptied or rotated file is a configuration change the statement does not define (recorded only); the rightful client is binding only while the content is the configured one (before, and after the file is restored)",
+		"a configured token is one opaque string whatever characters it contains; if an instance refuses its own configured token the monitor reports that and judges the remaining probes on the status alone (no state dumps possible)",
 		"the client's certificate is the leaf it proves possession of; certificates it merely sends along (not part of the leaf's chain) never lend their names to it",
 		"acceptance over TLS is decided by a round trip (server-side handshake result + ping/pong in-process, Cluster/Status RPC against the binary), never by the client-side handshake alone",
 		"the follower's Reset effect is observed through table revisions while replication is quiescent (oracle-admitted Reset probes are ordered last)",
